@@ -105,6 +105,9 @@ def check_discipline(ctx, lock, held_before, label=""):
     ctx.prove(label + "lock-token-balanced", lock.held == held_before,
               detail="transaction lock %s on exit" % ("held" if lock.held else "free"))
     ctx.prove(label + "gateway-used-only-under-the-lock", all(h for _, _, h in calls))
+    ctx.prove(label + "never-releases-a-lock-held-by-another-task", lock.stolen == 0,
+              detail="the task released the transaction lock without holding it while another task was inside its "
+                     "critical section (asyncio.Lock.release does not check ownership)")
     # device-type prefix adjacency
     ok = True
     for i, (kind, cmd, _) in enumerate(calls):
